@@ -10,6 +10,9 @@ use miniscript::{Error, ParseError, ParseNumError, ParseTreeError};
 use crate::c10::{hex, impl_checksum, quiet_panics};
 use crate::common::{Out, Rng};
 
+#[path = "rawtext.rs"]
+pub mod rawtext;
+
 fn opt(i: Option<usize>) -> String { i.map(|n| n.to_string()).unwrap_or_else(|| "-".into()) }
 
 fn tree_err(e: &ParseTreeError) -> String {
@@ -389,11 +392,197 @@ pub fn run_expr(out: &mut Out, thorough: bool, rng: &mut Rng) {
     }
     out.note(
         "domain_expr",
-        "expression parser: repo unit-test strings; nesting depth 1..10000 (limit 403 = MAX_RECURSION_DEPTH + 1) with both brace kinds; width to 20000; all strings of length <= 5 over a(){},; random valid trees and their mutations (delete/insert/replace/swap/truncate, non-ASCII); checksummed trees; 1 MB inputs (verdict only); parse_num 0..1100, u32 boundary, junk".into(),
+        "expression parser: repo unit-test strings; nesting depth 1..10000 (limit 403 = MAX_RECURSION_DEPTH + 1) with both brace kinds; width to 20000; all strings of length <= 5 over a(){},; random valid trees and their mutations (delete/insert/replace/swap/truncate, non-ASCII); checksummed trees; 1 MB inputs (verdict only); parse_num 0..1100, u32 boundary, junk; RAW TEXT corpus (rawtext.rs, ~64k strings that no Display produces: every string of length 0..3 over 20 symbols, checksum lengths 0..9, '#' at every position, nesting +-1 around 403 / tree height 402 / tap depth 128 / multi 20 / multi_a 999, every character class substituted and inserted at every position of 41 templates, fragment-name look-alikes truncated/extended by one character, numbers with leading zeros / signs / every length around u32::MAX, 2^31, 2^22, 500000000 in every numeric position) through Tree::from_str (model-compared) and through 42 text entry points under catch_unwind (every FromStr incl. the inner descriptor types, WalletPolicy and the three key types, from_str_insane, from_str_with_validation_params, FromTree::from_tree on the parsed tree, parse_descriptor, verify_checksum, Engine::input, parse_num, parse_num_nonzero); TreeIterItem accessors/iterators checked against the node table on every accepted tree; parse_num_nonzero model-compared; designated must-reject strings (one reason each)".into(),
     );
+}
+
+pub fn impl_parsenum_nz(s: &str) -> String {
+    use miniscript::expression::parse_num_nonzero;
+    use std::num::IntErrorKind;
+    let r = catch_unwind(AssertUnwindSafe(|| match parse_num_nonzero(s, "ctx") {
+        Ok(n) => n.to_string(),
+        Err(ParseNumError::InvalidLeadingDigit(_)) => "ERR:InvalidLeadingDigit".to_string(),
+        Err(ParseNumError::IllegalZero { .. }) => "ERR:IllegalZero".to_string(),
+        Err(ParseNumError::StdParse(e)) => match e.kind() {
+            IntErrorKind::Empty => "ERR:Empty".to_string(),
+            IntErrorKind::InvalidDigit => "ERR:InvalidDigit".to_string(),
+            IntErrorKind::PosOverflow => "ERR:PosOverflow".to_string(),
+            _ => "ERR:OtherInt".to_string(),
+        },
+    }));
+    r.unwrap_or_else(|_| "PANIC".into())
+}
+
+/// the accessors and iterators of `TreeIterItem` agree with the node table (and do not panic)
+fn tree_api_verdict(s: &str) -> String {
+    let r = catch_unwind(AssertUnwindSafe(|| -> String {
+        let tree = match Tree::from_str(s) {
+            Ok(t) => t,
+            Err(_) => return "rejected".into(),
+        };
+        let root = tree.root();
+        // node table through the child links (as `dump`)
+        let mut items = vec![];
+        let mut stack = vec![root];
+        while let Some(it) = stack.pop() {
+            items.push(it);
+            let kids: Vec<_> = it.children().collect();
+            for k in kids.into_iter().rev() {
+                stack.push(k);
+            }
+        }
+        let n = items.len();
+        for (i, it) in items.iter().enumerate() {
+            if it.index() != i { return format!("index:{}", i); }
+        }
+        // iterators of the root
+        let pre: Vec<usize> = root.pre_order_iter().map(|x| x.index()).collect();
+        if pre != (0..n).collect::<Vec<_>>() { return "pre_order_iter".into(); }
+        let post: Vec<usize> = root.rtl_post_order_iter().map(|x| x.index()).collect();
+        if post != (0..n).rev().collect::<Vec<_>>() { return "rtl_post_order_iter".into(); }
+        if root.pre_order_iter().len() != n { return "exact-size".into(); }
+        {
+            let mut it = root.pre_order_iter();
+            let _ = it.next();
+            it.skip_descendants();
+            if it.next().is_some() { return "skip_descendants-root".into(); }
+            let mut it0 = root.pre_order_iter();
+            it0.skip_descendants(); // before any item: skips everything
+            if it0.next().is_some() { return "skip_descendants-fresh".into(); }
+        }
+        let mut any_curly = false;
+        // subtree sizes, bottom-up
+        let mut size = vec![1usize; n];
+        for i in (0..n).rev() {
+            if let Some(p) = items[i].parent() { size[p.index()] += size[i]; }
+        }
+        for (i, it) in items.iter().enumerate() {
+            let kids: Vec<_> = it.children().collect();
+            if kids.len() != it.n_children() { return format!("n_children:{}", i); }
+            if (it.parens() == Parens::None) != kids.is_empty() { return format!("parens:{}", i); }
+            if it.parens() == Parens::Curly { any_curly = true; }
+            for (j, k) in kids.iter().enumerate() {
+                if k.parent().map(|p| p.index()) != Some(i) { return format!("parent:{}", k.index()); }
+                if k.is_first_child() != (j == 0) { return format!("is_first_child:{}", k.index()); }
+                let sib = k.right_sibling().map(|x| x.index());
+                if sib != kids.get(j + 1).map(|x| x.index()) { return format!("right_sibling:{}", k.index()); }
+            }
+            if it.first_child().map(|x| x.index()) != kids.first().map(|x| x.index()) { return format!("first_child:{}", i); }
+            if it.children_pos() != it.name_pos() + it.name().len() + 1 { return format!("children_pos:{}", i); }
+            if s.get(it.name_pos()..it.name_pos() + it.name().len()) != Some(it.name()) { return format!("name_pos:{}", i); }
+            // sub-iterators
+            let sub: Vec<usize> = it.pre_order_iter().map(|x| x.index()).collect();
+            if sub != (i..i + size[i]).collect::<Vec<_>>() { return format!("sub-pre_order:{}", i); }
+            // name_separated: at most one separator
+            for sep in [':', '@'] {
+                let cnt = it.name().matches(sep).count();
+                match it.name_separated(sep) {
+                    Ok((None, rest)) => if cnt != 0 || rest != it.name() { return format!("name_separated:{}", i); },
+                    Ok((Some(pre), rest)) => if cnt != 1 || format!("{}{}{}", pre, sep, rest) != it.name() { return format!("name_separated:{}", i); },
+                    Err(_) => if cnt < 2 { return format!("name_separated-err:{}", i); },
+                }
+            }
+            if it.verify_n_children("x", kids.len()..=kids.len()).is_err() { return format!("verify_n_children:{}", i); }
+            if it.verify_n_children("x", kids.len() + 1..).is_ok() { return format!("verify_n_children-lo:{}", i); }
+            if it.verify_binary("x").is_ok() != (kids.len() == 2) { return format!("verify_binary:{}", i); }
+            if it.verify_toplevel("x", 1..).is_ok() && (it.name() != "x" || kids.is_empty() || it.parens() == Parens::Curly) { return format!("verify_toplevel:{}", i); }
+            // number-reading helpers: results are not judged, they must not panic
+            let _ = it.verify_after();
+            let _ = it.verify_older();
+            let _ = it.verify_terminal::<String>("x");
+            let _ = it.verify_terminal_parent::<String>("x", "y");
+            let _ = it.verify_threshold::<20, _, (), miniscript::Error>(|_| Ok(()));
+            let _ = it.verify_threshold::<0, _, (), miniscript::Error>(|_| Ok(()));
+        }
+        if root.verify_no_curly_braces().is_ok() == any_curly { return "verify_no_curly_braces".into(); }
+        "consistent".into()
+    }));
+    r.unwrap_or_else(|_| "PANIC".into())
+}
+
+/// rule R2: strings refused TODAY for exactly one reason each; judged `must be rejected`
+const MUST_REJECT: &[(&str, &str)] = &[
+    ("UnmatchedOpenParen", "a(b"), ("UnmatchedOpenParen", "a{b"), ("UnmatchedOpenParen", "a(b(c)"),
+    ("UnmatchedCloseParen", "a)"), ("UnmatchedCloseParen", "a}"),
+    ("MismatchedParens", "a(b}"), ("MismatchedParens", "a{b)"),
+    ("TrailingCharacter", "a(b)c"), ("TrailingCharacter", "a(b),"), ("TrailingCharacter", "a,b"), ("TrailingCharacter", "a(b))"),
+    ("TrailingCharacter", ","), ("TrailingCharacter", "a,"), ("TrailingCharacter", "a(b),c"), ("TrailingCharacter", "a(b)("),
+    ("ExpectedParenOrComma", "a(b(c)d)"), ("ExpectedParenOrComma", "a(b(c)(d))"),
+    ("MaxRecursionDepthExceeded", "@nest404"),
+    ("InvalidCharacter", "a(\u{e9})"), ("InvalidCharacter", "a\u{7f}"), ("InvalidCharacter", "a\u{0}b"), ("InvalidCharacter", "a(b)\n"),
+    ("InvalidChecksumLength", "a(b)#"), ("InvalidChecksumLength", "a(b)#qqqqqqq"), ("InvalidChecksumLength", "a(b)#qqqqqqqqq"),
+    ("InvalidChecksum", "a(b)#qqqqqqqq"), ("InvalidChecksum", "@upper"), ("InvalidChecksum", "@onechar"),
+];
+
+/// the raw text channel through the expression parser (C lines) and through EVERY text entry
+/// point under catch_unwind (J lines)
+pub fn run_raw(out: &mut Out) {
+    quiet_panics();
+    let corpus = rawtext::raw_corpus();
+    let mut per_class: std::collections::BTreeMap<&str, usize> = Default::default();
+    for (class, s) in &corpus {
+        *per_class.entry(class).or_insert(0) += 1;
+        emit_tree(out, s);
+        let v = tree_api_verdict(s);
+        if v != "rejected" {
+            out.line(&format!("J treeapi {} {}", hex(s), v), "ok");
+        }
+    }
+    for (class, n) in &per_class {
+        out.note(&format!("raw_{}", class), n.to_string());
+    }
+    // every entry point
+    let routes = rawtext::routes();
+    for (rname, f) in &routes {
+        let tag = rname.replace(' ', "");
+        let mut agg: std::collections::BTreeMap<&str, (u64, u64, u64)> = Default::default();
+        for (class, s) in &corpus {
+            let r = rawtext::guarded(|| f(s));
+            let e = agg.entry(class).or_insert((0, 0, 0));
+            e.0 += 1;
+            match r {
+                None => {
+                    e.1 += 1;
+                    if e.1 <= 20 {
+                        out.line(&format!("J nopanic raw:{} {} PANIC", tag, hex(s)), "ok");
+                    }
+                }
+                Some(true) => e.2 += 1,
+                Some(false) => {}
+            }
+        }
+        for (class, (n, npanic, nacc)) in agg {
+            out.line(&format!("J nopanicagg {} {} {} {}", class, tag, n, npanic), "ok");
+            *out.hist.entry(format!("raw accepted {} {}", class, tag)).or_insert(0) += nacc;
+        }
+    }
+    out.note("raw_routes", routes.len().to_string());
+    // numbers: parse_num / parse_num_nonzero against the model
+    for n in rawtext::number_strings() {
+        emit_num(out, &n);
+        out.line(&format!("C parsenumnz {}", hex(&n)), &impl_parsenum_nz(&n));
+    }
+    // designated refused-today strings
+    for (reason, s) in MUST_REJECT {
+        let s: String = match *s {
+            "@nest404" => nest('(', ')', 404, "x"),
+            "@upper" => { let cs = impl_checksum("a(b)"); format!("a(b)#{}", cs.to_ascii_uppercase()) }
+            "@onechar" => { let cs = impl_checksum("a(b)"); let mut c: Vec<char> = cs.chars().collect(); if !c.is_empty() { c[0] = if c[0] == 'q' { 'p' } else { 'q' }; } format!("a(b)#{}", c.into_iter().collect::<String>()) }
+            x => x.to_string(),
+        };
+        let a = impl_exprtree(&s);
+        let verdict = if a.starts_with("ok:") { "accepted".to_string() } else if a == "PANIC" { "PANIC".to_string() } else { "rejected".to_string() };
+        let got = a.split(':').nth(if a.starts_with("ERR:Checksum") { 2 } else { 1 }).unwrap_or("").to_string();
+        if verdict == "rejected" && &got != reason {
+            out.count(&format!("observation: must-reject {} refused as {}", reason, got));
+        }
+        out.line(&format!("J mustreject Tree {} {} {}", reason, hex(&s), verdict), "ok");
+        emit_tree(out, &s);
+    }
 }
 
 pub fn run(out: &mut Out, thorough: bool, seed: u64) {
     let mut rng = Rng(seed ^ 0xC11E);
     run_expr(out, thorough, &mut rng);
+    run_raw(out);
 }
